@@ -1,7 +1,7 @@
 #!/usr/bin/env python3
 """Both-ways self-test: every mutant of corpus.MUTANTS must be reported by its property's check with the expected rule,
-every edit of corpus.BENIGN must leave all 19 checks silent. Each entry runs on its own scratch copy of the repository
-(rsync to $TMPDIR, removed afterwards). Usage: selftest/run.py [mutants|benign|all] [-j N]"""
+every edit of corpus.BENIGN and every patch under selftest/benign/ must leave all 19 checks silent, every patch under seeded/ must be reported by its property's check. Each entry runs on its own scratch copy of the repository
+(rsync to $TMPDIR, removed afterwards). Usage: selftest/run.py [mutants|benign|patches|all] [-j N]"""
 import concurrent.futures as cf
 import os
 import re
@@ -84,6 +84,46 @@ def run_benign(b):
         shutil.rmtree(tmp, ignore_errors=True)
 
 
+def _apply(patch, tmp):
+    r = subprocess.run(["patch", "-p1", "-s", "-d", tmp, "-i", patch], capture_output=True, text=True)
+    return r.returncode == 0, (r.stdout + r.stderr)[:200]
+
+
+def _benign_patch(patch):
+    tmp = tempfile.mkdtemp(prefix="zeep-bp.", dir=os.environ.get("TMPDIR", "/tmp"))
+    try:
+        subprocess.run(["rsync", "-a", "--exclude", "target", "--exclude", ".git", SRC + "/", tmp + "/"], check=True)
+        ok, why = _apply(patch, tmp)
+        if not ok:
+            return patch, ["DOES NOT APPLY: " + why]
+        noisy = []
+        for pid in ALL:
+            rc, out = check(tmp, pid)
+            if rc != 0:
+                keys = re.findall(r"key: ([^\n]*)", out)[:3]
+                noisy.append(f"{pid} rc={rc}: {keys}")
+        return patch, noisy
+    finally:
+        shutil.rmtree(tmp, ignore_errors=True)
+
+
+def _seed(d):
+    import json
+    meta = json.load(open(os.path.join(d, "meta.json")))
+    pid = meta["property"]
+    tmp = tempfile.mkdtemp(prefix="zeep-sd.", dir=os.environ.get("TMPDIR", "/tmp"))
+    try:
+        subprocess.run(["rsync", "-a", "--exclude", "target", "--exclude", ".git", SRC + "/", tmp + "/"], check=True)
+        ok, why = _apply(os.path.join(d, "patch.diff"), tmp)
+        if not ok:
+            return ("STALE", pid, os.path.basename(d), "patch does not apply to the current tree")
+        rc, out = check(tmp, pid)
+        keys = re.findall(r"key: ([^\n]*)", out)
+        return ({0: "MISSED", 1: "CAUGHT", 2: "NOCOMPILE"}.get(rc, str(rc)), pid, os.path.basename(d), "; ".join(keys[:2])[:200])
+    finally:
+        shutil.rmtree(tmp, ignore_errors=True)
+
+
 def main():
     what = sys.argv[1] if len(sys.argv) > 1 else "all"
     jobs = 6
@@ -105,6 +145,27 @@ def main():
                 results["benign"].append(dict(zip(("status", "note", "detail"), r)))
                 if r[0] != "SILENT":
                     bad += 1
+    if what in ("patches", "all"):
+        # independently written behaviour-preserving refactorings (selftest/benign/<set>/*.diff): all checks silent
+        import glob
+        sys.path.insert(0, os.path.join(VERIF, "tools"))
+        results["patches"] = []
+        results["seeded"] = []
+        pats = sorted(glob.glob(os.path.join(HERE, "benign", "*", "*.diff")))
+        with cf.ThreadPoolExecutor(max(1, jobs // 2)) as ex:
+            for pth, noisy in ex.map(_benign_patch, pats):
+                status = "SILENT" if not noisy else ("STALE" if noisy and noisy[0].startswith("DOES NOT APPLY") else "FALSE-ALARM")
+                print("PATCH", status, os.path.relpath(pth, HERE), "; ".join(noisy)[:300], flush=True)
+                results["patches"].append({"status": status, "patch": os.path.relpath(pth, HERE), "detail": "; ".join(noisy)[:300]})
+                if status == "FALSE-ALARM":
+                    bad += 1
+        # independently seeded breaking changes (seeded/<name>/patch.diff): the property's check must report each
+        for d in sorted(glob.glob(os.path.join(VERIF, "seeded", "*"))):
+            r = _seed(d)
+            print("SEED", *r, flush=True)
+            results["seeded"].append(dict(zip(("status", "property", "name", "key"), r)))
+            if r[0] not in ("CAUGHT", "STALE"):
+                bad += 1
     print(f"selftest: {bad} problem(s)")
     if what == "all":
         import json
